@@ -111,9 +111,9 @@ Fixpoint take_while (f : N -> bool) (s : str) : str * str :=
 Definition is_number (s : str) : bool :=
   match take_while is_digit s with
   | (_ :: _, []) => true
-  | (_ :: _, 46 :: fp) => forallb is_digit fp
-  | ([], 46 :: fp) => match fp with [] => false | _ => forallb is_digit fp end
-  | _ => false
+  | (_ :: _, c :: fp) => (c =? 46) && forallb is_digit fp
+  | ([], c :: fp) => (c =? 46) && match fp with [] => false | _ => true end && forallb is_digit fp
+  | ([], []) => false
   end.
 
 (** ** token texts *)
